@@ -43,9 +43,23 @@ def clock_term_ok(v: T.Term) -> bool:
     return isinstance(x, tuple) and len(x) == 3 and x[:2] == ("app", "time.time") and x[2][0] == "occ"
 
 
-def check_role(role: str, sl: T.Term, op: str, o: Outcome, ctx: Dict[str, Any]) -> Tuple[Optional[bool], str]:
-    pc = o.state.pc
+def check_role(role: str, sl: T.Term, op: str, o: Outcome, ctx: Dict[str, Any], pc: Optional[List[Any]] = None) -> Tuple[Optional[bool], str]:
+    pc = list(o.state.pc) if pc is None else pc
     atoms = sl[2]
+    if len(atoms) == 1 and isinstance(atoms[0], tuple) and len(atoms[0]) == 4 and atoms[0][0] == "alt" and all(isinstance(b, tuple) and b[:1] == ("seq",) for b in atoms[0][2:]):
+        # a field chosen by a condition inside the value (a conditional expression in a helper): each choice is
+        # judged under its own condition, as if the path had forked there
+        from ..interp import neg
+        cond_, a_, b_ = atoms[0][1:]
+        ra = check_role(role, a_, op, o, ctx, pc + [cond_])
+        rb = check_role(role, b_, op, o, ctx, pc + [neg(cond_)])
+        for r_ in (ra, rb):
+            if r_[0] is False:
+                return r_
+        for r_ in (ra, rb):
+            if r_[0] is None:
+                return r_
+        return True, ra[1]
     dev_id = ("sym", "device_id", ("hexw", 6))
     dev_key = ("sym", "device_key", ("hexw", 2))
     if role == "LEN":
